@@ -184,6 +184,10 @@ class Ctx:
         env = dict(ENV, GV_SCRATCH=scratch or os.path.join(CACHE, "scratch"), GV_VERIF=VERIF,
                    GV_REPO=os.environ.get("GV_REPO", "/repo"))
         p = subprocess.run(cmd, env=env, stdout=subprocess.PIPE, stderr=subprocess.STDOUT, text=True, timeout=timeout)
+        if p.returncode < 0:
+            # killed by a signal (the OOM killer on a loaded machine): one retry, the kill is recorded
+            self.assumptions.append(f"harness gv {sub} was killed by signal {-p.returncode} once and re-run")
+            p = subprocess.run(cmd, env=env, stdout=subprocess.PIPE, stderr=subprocess.STDOUT, text=True, timeout=timeout)
         if p.returncode != 0:
             self.broken_ties.append((f"harness gv {sub}", p.stdout[-2000:]))
         return p.returncode == 0, p.stdout
@@ -263,8 +267,12 @@ class Ctx:
         ev = {"property_id": self.pid, "tier": self.tier, "seed": self.seed, "level": level,
               "coverage": cov, "assumptions": self.assumptions,
               "wall_s": round(time.time() - self.t0, 2), "violations": len(by_sig) + (1 if self.broken_ties else 0)}
-        os.makedirs(os.path.join(VERIF, "evidence"), exist_ok=True)
-        json.dump(ev, open(os.path.join(VERIF, "evidence", f"{self.pid}.json"), "w"), indent=1)
+        # evidence/<id>.json is per PROPERTY; auxiliary targets (dce, gocomp, …) that several properties
+        # share write under evidence/aux/
+        import re as _re
+        edir = os.path.join(VERIF, "evidence") if _re.fullmatch(r"C\d\d", self.pid) else os.path.join(VERIF, "evidence", "aux")
+        os.makedirs(edir, exist_ok=True)
+        json.dump(ev, open(os.path.join(edir, f"{self.pid}.json"), "w"), indent=1)
         for l in lines:
             print(l)
         print(f"{self.pid}: {'FAIL' if rc else 'ok'} tier={self.tier} seed={self.seed} "
